@@ -430,6 +430,16 @@ func (m *Manager) AllocateNAT(privateIP net.IP) (*Allocation, error) {
 	m.poolMu.Lock()
 	defer m.poolMu.Unlock()
 
+	// Check again now that poolMu is held: allocations are only inserted under poolMu, so a
+	// concurrent caller for the same private IP may have allocated between the check above
+	// and the lock. Without this both callers would be given (different) blocks.
+	m.allocationMu.RLock()
+	if existing, ok := m.allocations[privKey]; ok {
+		m.allocationMu.RUnlock()
+		return existing, nil
+	}
+	m.allocationMu.RUnlock()
+
 	var selectedPool *PoolEntry
 	var poolIndex, blockIndex int
 	for i := range m.pool {
